@@ -14,7 +14,7 @@ from ..core import shim as shim_mod
 
 PROPERTY = "C09"
 LEVEL = "exploration"
-RULE = ("runs: algorithms x N in {2,3,4} x G in {1,2,3} x (parameters, objectives) in {(1,1),(2,2),(2,1)} x base streams from VERIF_SEED; "
+RULE = ("runs: algorithms x N in {2,3,4} x G in {1,2,3} x (parameters, objectives) in {(1,1),(2,2),(2,1)} x unconstrained / always-satisfied / half-satisfied inequality constraint x base streams from VERIF_SEED; "
         "choice points = every decision draw (3-way), every sample/choice pick (all alternatives), every objective call (ok / TimeoutError); "
         "all executions with <=1 deviation (thorough <=2), plus scripted runs in which one design fails 4 times in a row; value draws never "
         "deviate (no manufactured coincidences). acceptance step: every population of <=3 (thorough 4) over V3^2 x {F,T} x every offspring x "
@@ -85,7 +85,22 @@ def check_acceptance(pop_costs, x_costs, pick):
 
 
 # ------------------------------------------------------------------ full runs
-def run_body_factory(name, N, G, nparams, ncosts, seed, fail_script=None, allow_faults=True):
+CONSTRAINTS = {
+    None: None,
+    "always": lambda x: [x[0] - 10.0],            # every design satisfies the constraint
+    "half": lambda x: [x[0] - 0.5],               # satisfied iff x0 < 0.5
+}
+
+
+def ref_signed(ind, signs, g):
+    """Signed costs recomputed by the harness from costs and vector (independent of the stored marker)."""
+    marker = True if g is None else (not all(v < 0 for v in g(list(ind.vector))))
+    return tuple(s * round(c, 7) for s, c in zip(signs, ind.costs)) + (marker,)
+
+
+def run_body_factory(name, N, G, nparams, ncosts, seed, fail_script=None, allow_faults=True, constraint=None):
+    g = CONSTRAINTS[constraint]
+
     def body(ctx):
         from .c_support import run_algorithm
         st = {"calls": 0, "ok": 0}
@@ -129,10 +144,11 @@ def run_body_factory(name, N, G, nparams, ncosts, seed, fail_script=None, allow_
         try:
             problem, alg, exc = run_algorithm(name, ctx, seed, N, G, n_params=nparams, n_costs=ncosts,
                                               bounds=[[0.0, 1.0], [-2.0, 2.0]][:nparams], before=before, after=after,
-                                              shim_cfg={"extreme_values": False})
+                                              shim_cfg={"extreme_values": False}, g=g)
         finally:
             TournamentSelector.pop_acceptance = orig_acc
-        desc = "%s N=%d G=%d params=%d objectives=%d seed=%d fail_script=%r" % (name, N, G, nparams, ncosts, seed, sorted(fail_script) if fail_script else None)
+        desc = "%s N=%d G=%d params=%d objectives=%d seed=%d fail_script=%r constraint=%r" % (
+            name, N, G, nparams, ncosts, seed, sorted(fail_script) if fail_script else None, constraint)
         out = []
 
         def bad(key, msg):
@@ -169,7 +185,10 @@ def run_body_factory(name, N, G, nparams, ncosts, seed, fail_script=None, allow_
                     if tuple(d.vector) in nxt:
                         continue
                     for s in pops[k + 1]:
-                        if len(s.costs_signed) == len(d.costs_signed) and ref_dominance(tuple(d.costs_signed), tuple(s.costs_signed)) == 1:
+                        if not d.costs or not s.costs:
+                            continue
+                        signs = problem.signs
+                        if ref_dominance(ref_signed(d, signs, g), ref_signed(s, signs, g)) == 1:
                             bad("C09:NSGAII:elitism", "generation %d keeps %r (%r) although the dropped %r (%r) of generation %d dominates it" % (
                                 k + 1, s.vector, s.costs_signed, d.vector, d.costs_signed, k))
                             break
@@ -178,7 +197,7 @@ def run_body_factory(name, N, G, nparams, ncosts, seed, fail_script=None, allow_
                     break
             if ncosts == 1:
                 best = [min(i.costs_signed[0] for i in pops[k]) for k in sorted(pops) if pops[k] and all(i.costs_signed for i in pops[k])]
-                if any(b > a for a, b in zip(best, best[1:])):
+                if constraint in (None, "always") and any(b > a for a, b in zip(best, best[1:])):
                     bad("C09:NSGAII:best-got-worse", "best signed cost per generation %r" % (best,))
         for ind in problem.individuals:
             if not ind.costs:
@@ -204,14 +223,15 @@ def _shard(shard, col: Collector):
                         col.violation(key, "acc", msg, {"pop": pc, "x": xc, "pick": pick})
         col.sample({"kind": "acceptance", "population": list(fixed) + [ALPHA[7]] * (n - len(fixed)), "offspring": ALPHA[3], "pick": 0}, 1)
     elif kind == "run":
-        _, name, N, G, nparams, ncosts, seed, bound, part, nparts = shard
-        body = run_body_factory(name, N, G, nparams, ncosts, seed)
+        _, name, N, G, nparams, ncosts, seed, bound, part, nparts = shard[:10]
+        constraint = shard[10] if len(shard) > 10 else None
+        body = run_body_factory(name, N, G, nparams, ncosts, seed, constraint=constraint)
 
         def on_exec(ctx, out):
             if any(ctx.choices):
                 col.nontrivial((name, N, G, nparams, ncosts, seed, tuple(ctx.choices)))
         explore_part(body, col, part, nparts, bound=bound, sub="run", on_exec=on_exec,
-                     case_extra={"name": name, "N": N, "G": G, "nparams": nparams, "ncosts": ncosts, "seed": seed})
+                     case_extra={"name": name, "N": N, "G": G, "nparams": nparams, "ncosts": ncosts, "seed": seed, "constraint": constraint})
         if part == 0:
             col.sample({"algorithm": name, "N": N, "G": G, "parameters": nparams, "objectives": ncosts, "seed": seed, "deviation_bound": bound}, 1)
     elif kind == "script":
@@ -234,7 +254,8 @@ def replay(sub, case):
     if sub == "acc":
         return check_acceptance([tuple(c) for c in case["pop"]], tuple(case["x"]), case["pick"])
     if sub == "run":
-        ctx, out = run_once(run_body_factory(case["name"], case["N"], case["G"], case["nparams"], case["ncosts"], case["seed"]), case["choices"])
+        ctx, out = run_once(run_body_factory(case["name"], case["N"], case["G"], case["nparams"], case["ncosts"], case["seed"],
+                                             constraint=case.get("constraint")), case["choices"])
         return out
     if sub == "script":
         from ..core.explorer import Ctx
@@ -261,5 +282,11 @@ def run(tier, seed):
                     for part in range(nparts):
                         shards.append(("run", name, N, G, nparams, ncosts, s, b, part, nparts))
             shards.append(("script", name, N, G, seed))
+            if name in ("NSGAII", "EpsMOEA") and (N, G) in ((2, 2), (3, 3), (4, 3)):
+                for constraint in ("always", "half"):
+                    for (nparams, ncosts) in ((1, 1), (2, 2)):
+                        nparts = 4 if N * G >= 8 else 1
+                        for part in range(nparts):
+                            shards.append(("run", name, N, G, nparams, ncosts, streams[0], 1, part, nparts, constraint))
     col = run_shards(_shard, shards)
     return col, {"exhaustive": col.counters.get("caps_hit", 0) == 0, "streams": streams}
